@@ -42,3 +42,21 @@ Theorem C15_gradient_reset_period v ss : g_int v <> -1 ->
      end) v ss (k - g_cnt v).
 Proof. exact (grad_probe_period v ss). Qed.
 Print Assumptions C15_gradient_reset_period.
+
+(* Vegas resets recur: for every state satisfying the C04 invariant, every jitter stream drawn from [0,1] and probe multiplier in [1, 2^20],
+   no step panics and every run of consecutive non-probe samples is shorter than multiplier x (M + 1), M >= the largest estimate
+   ("within probe-multiplier x limit samples"). *)
+From Coq Require Import Reals.
+From GCL Require Import Proofs.VegasSafe Proofs.VegasProbe.
+Theorem C15_vegas_reset_period M ss v : VInv v M -> jit_ok (v_jitter v) -> (1 <= v_mult v <= 2^20)%Z -> (0 <= v_pcount v)%Z ->
+  Forall psample_ok ss ->
+  (fix go (v : vegas) (ss : list sample) (n : Z) : Prop :=
+     match ss with
+     | [] => True
+     | s :: r => match vegas_step v s with
+                 | None => False
+                 | Some o => if (o_branch o =? 1)%Z then True else (n + 1 < v_mult v * (M + 1))%Z /\ go (o_st o) r (n + 1)%Z
+                 end
+     end) v ss (v_pcount v).
+Proof. exact (vegas_probe_period M ss v). Qed.
+Print Assumptions C15_vegas_reset_period.
